@@ -169,6 +169,7 @@ def run(tape, kind):
             return out
         run_.drain()
     sr.check_in_order(out, run_, continuing=False)
+    run_.check_results_stable('count')
     shapes = tuple(sorted((k, np.asarray(v).shape[1:]) for k, v in res.outputs.items()))
     okind = (list(wl['objective']) or ['default'])[0]
     out.abstract = (okind, wl['batch_size'], wl['n_samples'], len(run_.consumed), info['ties'],
